@@ -1,5 +1,6 @@
 (** C12 — Windows hold exactly the events of their time span; aggregates follow.
     Statements only; proofs in Proofs/WindowProofs.v.  Model of the repaired TimeWindow::record. *)
+From RRE Require Model.StreamAlpha Proofs.StreamAlphaProofs.
 From RRE Require Import Base.Sx Base.Float Model.Window Proofs.WindowProofs.
 Open Scope N_scope.
 
@@ -43,6 +44,27 @@ Theorem C12_tumbling_one_window_per_interval : forall dur cap ws e,
   (forall s, In s (map w_start (group_add dur cap ws e)) <-> In s (map w_start ws) \/ s = (ets e / dur) * dur).
 Proof. exact group_add_starts. Qed.
 Print Assumptions C12_tumbling_one_window_per_interval.
+
+(** StreamAlphaNode (Model/StreamAlpha.v, sliding and tumbling windows under the clock; names qualified).
+    An event is accepted exactly when it comes from the node's stream, has its type and lies in the window
+    of the clock; after every accepted event no buffered event lies before that window; the buffer only
+    loses events, except for the one just accepted; and it never exceeds the retention cap. *)
+Theorem C12_alpha_accepted_iff : forall kind d maxn now nd id ts s t,
+  snd (StreamAlpha.process kind d maxn now nd id ts s t) = s && t && StreamAlpha.in_window kind d now ts.
+Proof. exact StreamAlphaProofs.accepted_iff. Qed.
+Print Assumptions C12_alpha_accepted_iff.
+
+Theorem C12_alpha_nothing_before_the_window : forall kind d maxn now nd id ts s t nd',
+  StreamAlpha.process kind d maxn now nd id ts s t = (nd', true) ->
+  forall e, In e (StreamAlpha.n_events nd') -> (StreamAlphaProofs.lower kind d now <= snd e)%N.
+Proof. exact StreamAlphaProofs.accepted_within_window. Qed.
+Print Assumptions C12_alpha_nothing_before_the_window.
+
+Theorem C12_alpha_buffer_only_shrinks : forall kind d maxn now nd id ts s t nd' b,
+  StreamAlpha.process kind d maxn now nd id ts s t = (nd', b) ->
+  forall e, In e (StreamAlpha.n_events nd') -> In e (StreamAlpha.n_events nd) \/ (b = true /\ e = (id, ts)).
+Proof. exact StreamAlphaProofs.buffer_only_shrinks. Qed.
+Print Assumptions C12_alpha_buffer_only_shrinks.
 
 (** non-vacuity: the pre-repair witness (duration 50; records at 120, 10, 165) *)
 Example C12_example :
